@@ -11,7 +11,8 @@ OTHER_TAGS = ['!foo', '!f', 'tag:example.org,2011:x', P + 'x', P + 'Str', P + 'p
               'tag:python.yaml.org,2002:object/apply:os.system', P + 'ruby/object:Foo', P + 'java/object:java.lang.Runtime']
 KINDS = ['scalar_empty', 'scalar_arg', 'seq', 'map', 'map_full']
 CONTEXTS = ['root', 'seq_item', 'map_value', 'map_key', 'anchored_aliased', 'merge_value', 'merge_alias', 'merge_list', 'in_set', 'set_value', 'in_omap', 'omap_key', 'in_pairs',
-            'second_doc', 'depth3', 'alias_key', 'inside_merge_source']
+            'second_doc', 'depth3', 'alias_key', 'inside_merge_source', 'value_key_value', 'value_key_sibling', 'value_key_alias',
+            'merge_overridden', 'merge_overridden_list', 'merge_overridden_deep', 'dup_key_shadowed', 'dup_key_shadowing', 'merge_twice']
 FULL_CONTEXTS = CONTEXTS + ['in_pytuple', 'in_pydict', 'in_pylist_key']
 SPELLINGS = ['bangbang', 'verbatim', 'handle', 'percent']
 
@@ -102,6 +103,33 @@ def render(tag, kind, context, spelling='bangbang'):
         info['merge_source'] = True
     elif context == 'inside_merge_source':
         body = 'x: 1\n<<: {inner: ' + node + ' }\n'
+    elif context == 'merge_overridden':
+        # a merged entry whose key the merging mapping also gives itself: its value is constructed and then overwritten
+        body = 'x: {<<: {a: ' + node + ' }, a: 1}\n'
+        info['shadowed'] = True         # constructed, then overwritten: not in the result
+    elif context == 'merge_overridden_list':
+        body = '<<: [{a: ' + node + ' }, {b: 2, a: 3}]\na: 1\n'
+        info['shadowed'] = True         # constructed, then overwritten: not in the result
+    elif context == 'merge_overridden_deep':
+        body = '- &m {a: [{k: ' + node + ' }]}\n- {a: 1, <<: *m}\n- {<<: *m, a: 2}\n'
+    elif context == 'dup_key_shadowed':
+        body = '{a: ' + node + ' , a: 1}\n'
+        info['shadowed'] = True         # constructed, then overwritten: not in the result
+    elif context == 'dup_key_shadowing':
+        body = 'a: 1\na: ' + node + '\n'
+    elif context == 'merge_twice':
+        body = '<<: {a: ' + node + ' }\n<<: {a: 2}\n'
+        info['shadowed'] = True         # constructed, then overwritten: not in the result
+    elif context == 'value_key_value':
+        # the "=" (value) key of a mapping that carries a scalar core tag: SafeConstructor.construct_scalar() descends into it
+        body = '- !!str {=: ' + node + ' }\n- z\n'
+        info['value_key'] = True
+    elif context == 'value_key_sibling':
+        body = 'k: !!int {b: ' + node + ' , =: "3"}\n'
+        info['value_key'] = True
+    elif context == 'value_key_alias':
+        # the anchored node is also an ordinary sequence item: its tag IS constructed there
+        body = '- &v ' + (node if (ttext or c) else '""') + '\n- !!str {=: *v}\n'
     elif context == 'in_set':
         body = '!!set\n? a\n? ' + node + '\n'
     elif context == 'set_value':
